@@ -15,32 +15,33 @@ import (
 
 // codecCase is the union of all inputs a codec case can carry.
 type codecCase struct {
-	Op      string `json:"op"`
-	Fc      int    `json:"fc"`
-	Framing string `json:"framing"`
-	Unit    int    `json:"unit"`
-	Addr    int    `json:"addr"`
-	Qty     int    `json:"qty"`
-	Data    []int  `json:"data"`
-	Coils   []int  `json:"coils"`
-	Waddr   int    `json:"waddr"`
-	Tid     int    `json:"tid"`
-	Entry   string `json:"entry"`
-	Frame   []int  `json:"frame"`
-	Tail    []int  `json:"tail"`
-	Allow   bool   `json:"allow"`
-	Msg     []int  `json:"msg"`
-	Payload []int  `json:"payload"`
-	Start   int    `json:"start"`
-	Method  string `json:"method"`
-	From    int    `json:"from"`
-	To      int    `json:"to"`
-	Pat     string `json:"pat"`
-	Table   []int  `json:"table"`
-	Init    int    `json:"init"`
-	N       int    `json:"n"`
-	Len     int    `json:"len"`
-	Tag     string `json:"tag"`
+	argCoils []bool // the []bool handed to the most recent coil constructor call for this case
+	Op       string `json:"op"`
+	Fc       int    `json:"fc"`
+	Framing  string `json:"framing"`
+	Unit     int    `json:"unit"`
+	Addr     int    `json:"addr"`
+	Qty      int    `json:"qty"`
+	Data     []int  `json:"data"`
+	Coils    []int  `json:"coils"`
+	Waddr    int    `json:"waddr"`
+	Tid      int    `json:"tid"`
+	Entry    string `json:"entry"`
+	Frame    []int  `json:"frame"`
+	Tail     []int  `json:"tail"`
+	Allow    bool   `json:"allow"`
+	Msg      []int  `json:"msg"`
+	Payload  []int  `json:"payload"`
+	Start    int    `json:"start"`
+	Method   string `json:"method"`
+	From     int    `json:"from"`
+	To       int    `json:"to"`
+	Pat      string `json:"pat"`
+	Table    []int  `json:"table"`
+	Init     int    `json:"init"`
+	N        int    `json:"n"`
+	Len      int    `json:"len"`
+	Tag      string `json:"tag"`
 }
 
 func coilsOf(a []int) []bool {
@@ -57,6 +58,8 @@ func newReq(c *codecCase) (packet.Request, error) {
 	tcp := c.Framing == "tcp"
 	var r packet.Request
 	var err error
+	argData, argCoils := bytesOf(c.Data), coilsOf(c.Coils)
+	c.argCoils = argCoils // (the caller of a coil constructor may reuse its []bool afterwards, see doNewReq)
 	switch c.Fc {
 	case 1:
 		if tcp {
@@ -90,21 +93,21 @@ func newReq(c *codecCase) (packet.Request, error) {
 		}
 	case 6:
 		if tcp {
-			r, err = nilIfErr(packet.NewWriteSingleRegisterRequestTCP(u, a, bytesOf(c.Data)))
+			r, err = nilIfErr(packet.NewWriteSingleRegisterRequestTCP(u, a, argData))
 		} else {
-			r, err = nilIfErr(packet.NewWriteSingleRegisterRequestRTU(u, a, bytesOf(c.Data)))
+			r, err = nilIfErr(packet.NewWriteSingleRegisterRequestRTU(u, a, argData))
 		}
 	case 15:
 		if tcp {
-			r, err = nilIfErr(packet.NewWriteMultipleCoilsRequestTCP(u, a, coilsOf(c.Coils)))
+			r, err = nilIfErr(packet.NewWriteMultipleCoilsRequestTCP(u, a, argCoils))
 		} else {
-			r, err = nilIfErr(packet.NewWriteMultipleCoilsRequestRTU(u, a, coilsOf(c.Coils)))
+			r, err = nilIfErr(packet.NewWriteMultipleCoilsRequestRTU(u, a, argCoils))
 		}
 	case 16:
 		if tcp {
-			r, err = nilIfErr(packet.NewWriteMultipleRegistersRequestTCP(u, a, bytesOf(c.Data)))
+			r, err = nilIfErr(packet.NewWriteMultipleRegistersRequestTCP(u, a, argData))
 		} else {
-			r, err = nilIfErr(packet.NewWriteMultipleRegistersRequestRTU(u, a, bytesOf(c.Data)))
+			r, err = nilIfErr(packet.NewWriteMultipleRegistersRequestRTU(u, a, argData))
 		}
 	case 17:
 		if tcp {
@@ -114,9 +117,9 @@ func newReq(c *codecCase) (packet.Request, error) {
 		}
 	case 23:
 		if tcp {
-			r, err = nilIfErr(packet.NewReadWriteMultipleRegistersRequestTCP(u, a, q, uint16(c.Waddr), bytesOf(c.Data)))
+			r, err = nilIfErr(packet.NewReadWriteMultipleRegistersRequestTCP(u, a, q, uint16(c.Waddr), argData))
 		} else {
-			r, err = nilIfErr(packet.NewReadWriteMultipleRegistersRequestRTU(u, a, q, uint16(c.Waddr), bytesOf(c.Data)))
+			r, err = nilIfErr(packet.NewReadWriteMultipleRegistersRequestRTU(u, a, q, uint16(c.Waddr), argData))
 		}
 	default:
 		return nil, fmt.Errorf("harness: no constructor for fc %d", c.Fc)
@@ -433,6 +436,12 @@ func safeCall(f parseFn, b []byte) (r callResult) {
 	}()
 	v, err := f(b)
 	if err != nil {
+		// an error value must be usable: a nil pointer wrapped in the error interface (err != nil, but every
+		// inspection of it blows up) is recorded as what it does to the caller - a panic
+		if rv := reflect.ValueOf(err); rv.Kind() == reflect.Ptr && rv.IsNil() {
+			return callResult{outcome: "panic", panicV: fmt.Sprintf("error value is a nil %T: unusable", err)}
+		}
+		_ = err.Error()
 		return callResult{outcome: "err", v: v, err: err}
 	}
 	return callResult{outcome: "ok", v: v}
@@ -589,7 +598,7 @@ func min(a, b int) int {
 func doNewReq(c *codecCase) Ev {
 	e := Ev{"op": "newreq", "fc": c.Fc, "framing": c.Framing, "unit": c.Unit, "addr": c.Addr, "qty": c.Qty,
 		"data": orEmpty(c.Data), "coils": orEmpty(c.Coils), "waddr": c.Waddr, "tid": 0, "accepted": false,
-		"bytes": []int{}, "explen": 0, "panic": false}
+		"bytes": []int{}, "explen": 0, "panic": false, "bytes2": []int{}, "bytes3": []int{}, "prevThen": []int{}, "prevNow": []int{}}
 	func() {
 		defer func() {
 			if p := recover(); p != nil {
@@ -610,9 +619,25 @@ func doNewReq(c *codecCase) Ev {
 		}
 		e["bytes"] = ints(r.Bytes())
 		e["explen"] = r.ExpectedResponseLength()
+		// a request is encoded as often as it is sent (retries): the second encoding, and the encoding of the PREVIOUS
+		// request after this one was built, must be what they were; the caller's argument slices are reused meanwhile
+		e["bytes2"] = ints(r.Bytes())
+		// (the register-data constructors keep the caller's slice - pinned behaviour, not demanded otherwise; the coil
+		// constructors pack the coils, so the caller's []bool may be reused)
+		for i := range c.argCoils {
+			c.argCoils[i] = !c.argCoils[i]
+		}
+		e["bytes3"] = ints(r.Bytes())
+		if lastReq != nil {
+			e["prevThen"], e["prevNow"] = lastReqThen, ints(lastReq.Bytes())
+		}
+		lastReq, lastReqThen = r, e["bytes"].([]int)
 	}()
 	return e
 }
+
+var lastReq packet.Request
+var lastReqThen []int
 
 func orEmpty(a []int) []int {
 	if a == nil {
